@@ -705,13 +705,19 @@ def gen_real_cfg(r):
     c['verifycerts'] = r.random() < 0.4
     if r.random() < 0.3:
         c['fingerprints'] = True
+    # the configured host name: also mixed case / trailing dot (the STS store is keyed by exactly this string);
+    # the configured port: also the very port a stored policy names
+    host = r.choice([SERVER, SERVER, 'Irc.Test', 'IRC.Example.COM', 'irc.test.'])
+    port = r.choice([6667, 6667, 6697, 7000])
+    c['servers'] = [(host, port)]
     k = r.randint(0, 5)
     if k >= 2:
-        c['policies'] = {SERVER: r.choice(['port=6697,duration=1000', 'port=6697,duration=100000', 'port=7000,duration=0', 'port=6697,duration=500,preload'])}
+        key = host if r.random() < 0.85 else host.lower()
+        c['policies'] = {key: r.choice(['port=6697,duration=1000', 'port=6697,duration=100000', 'port=7000,duration=0', 'port=6697,duration=500,preload'])}
         if k >= 3:
-            c['lastdisc'] = {SERVER: 100000 - r.choice([0, 10, 600, 999, 1001, 5000, 99999])}
+            c['lastdisc'] = {key: 100000 - r.choice([0, 10, 600, 999, 1001, 5000, 99999])}
     if r.random() < 0.15:
-        c['servers'] = [(SERVER, 6667), ('alt.test', 7000)]
+        c['servers'] = [(host, port), ('alt.test', 7000)]
     return c
 
 def script_real(r, cfg, n):
@@ -872,6 +878,13 @@ def safety_oracle(ops, obs):
             if len(t) >= 4 and t[0] == 'CAP' and t[2] == 'LS' and t[3].startswith(':') and prev.fsm == 'INIT_CAP_NEGOTIATION':
                 if not o.calls and not any(m.command == 'CAP' and m.args[:1] in (('REQ',), ('END',)) for m in o.msgs):
                     bad.append(('progress', 'the final CAP LS %r was answered neither by CAP REQ nor by CAP END nor by an abort (state %s): the bot waits for something the server will not send' % (trigger, o.fsm)))
+            # the credentials of one answer end with a line shorter than the chunk size (or `+`): the server
+            # takes a line of exactly AUTHENTICATE_CHUNK_SIZE characters as "more follows"
+            pay = [m.args[0] for m in o.msgs if m.command == 'AUTHENTICATE' and m.args and m.args[0] not in MECH_NAMES]
+            if pay and len(pay[-1]) >= 400:
+                bad.append(('progress', 'the AUTHENTICATE answer ends with a %d-character line (%d lines): the server waits for the rest, the bot for the verdict' % (len(pay[-1]), len(pay))))
+            if any(len(x) > 400 for x in pay) or any(len(x) != 400 for x in pay[:-1]):
+                bad.append(('progress', 'AUTHENTICATE answer chunked as %r characters' % [len(x) for x in pay]))
             if t and t[0] in NICK_SETTERS:
                 welcomed = True
             if t and t[0] in ('432', '433', '437') and not prev.after and not welcomed:
@@ -901,12 +914,18 @@ def gen_cfg(r, stream):
         pass                                     # no credentials
     elif k <= 4:
         c.update(mechs=['plain'], sasluser=r.choice(['u', 'bot', 'ü', 'a' * 150]), saslpass=r.choice(['p', 'sécret', 'b' * 160]))
+        if r.random() < 0.45:
+            # PLAIN payload = 2*len(user)+len(pass)+2 bytes; its base64 length is drawn around the
+            # AUTHENTICATE chunk boundaries: 396, 400, 404, 800, 1200 (and one below / above)
+            nbytes = r.choice([295, 296, 297, 298, 299, 300, 301, 303, 598, 599, 600, 601, 898, 900, 901])
+            u = r.randint(1, (nbytes - 3) // 2)
+            c.update(sasluser='u' * u, saslpass='p' * (nbytes - 2 - 2 * u))
     elif k == 5:
         c.update(mechs=['external'], certfile=True)
     elif k == 6:
         c.update(mechs=['external', 'plain'], certfile=r.random() < 0.7, sasluser='u', saslpass='p')
     elif k == 7:
-        c.update(mechs=['ecdsa-nist256p-challenge', 'plain'], sasluser='u', saslpass=r.choice(['', 'p']), ecdsakey=r.choice(['ok', 'bad', '']))
+        c.update(mechs=['ecdsa-nist256p-challenge', 'plain'], sasluser=r.choice(['u', 'u', 'n' * 300, 'n' * 299, 'n' * 600]), saslpass=r.choice(['', 'p']), ecdsakey=r.choice(['ok', 'bad', '']))
     elif k == 8:
         c.update(mechs=['ecdsa-nist256p-challenge', 'external', 'plain'], sasluser='u', saslpass='p', ecdsakey=r.choice(['ok', 'bad']), certfile=True)
     else:
